@@ -199,7 +199,9 @@ ActLists ==
     <<ASetvar(<<Lit(s_c_), Mac("MATCHED_VAR", << >>)>>, "add", <<Lit(s_1)>>)>>,
     <<ASetvar(KN, "set", <<Lit(s_3)>>), ASetvar(KN, "add", <<Lit(s_1)>>)>>,
     <<ASetvar(KS, "add", <<Lit(s_0)>>)>>,                       \* adding zero to a counter that does not exist yet creates it
-    <<ASetvar(KS, "sub", <<Lit(s_0)>>), ASetvar(KN, "add", <<Mac("TX", s_s)>>)>> }
+    <<ASetvar(KS, "sub", <<Lit(s_0)>>), ASetvar(KN, "add", <<Mac("TX", s_s)>>)>>,
+    \* an assignment whose expanded value happens to be negative is still an assignment
+    <<ASetvar(KN, "set", <<Lit(s_2)>>), ASetvar(KN, "set", <<Mac("TX", s_neg)>>)>> }
 \* one counter per matched target: the key is built from MATCHED_VAR_NAME
 PerTargetActs == { <<ASetvar(<<Lit(s_c_), Mac("MATCHED_VAR_NAME", << >>)>>, "add", <<Lit(s_1)>>)>>,
                    <<ASetvar(<<Lit(s_c_), Mac("MATCHED_VAR_NAME", << >>)>>, "add", <<Lit(s_1)>>), ASetvar(KS, "set", <<Mac("MATCHED_VAR_NAME", << >>)>>)>> }
